@@ -153,8 +153,19 @@ TrajMods(ob) ==
        \cup {[k |-> "update_prediction", id |-> 1, pred |-> pr] : pr \in {PTraj(2, AltTraj(kind, ob.t0, 1)), AltSet(ob.t0)}}
 OtherMods(ob) == IF ob.role = "dynamic" /\ ob.pred.k # "traj"
                  THEN {[k |-> "update_prediction", id |-> 1, pred |-> PTraj(2, AltTraj("pm", ob.t0, 1))]} ELSE {}
-HistCases == UNION {{<<<<ob, Red(2)>>, mm>> : mm \in Moves(ob) \cup TrajMods(ob)} : ob \in HTrajTargets}
-             \cup UNION {{<<<<ob, Red(2)>>, mm>> : mm \in Moves(ob) \cup OtherMods(ob)} : ob \in HSetTargets \cup HOthers}
+InitMods(ob) ==      \* the obstacle is advanced / its primary data are assigned (dynamic obstacles only)
+    IF ob.role # "dynamic" THEN {}
+    ELSE LET kind == IF ob.pred.k = "traj" THEN ob.pred.states[1].kind ELSE "oriented"
+             t1 == ob.t0 + 1
+             adv == St("initial", t1, 4, -1, 2)                                        \* new pose, time step t0 + 1
+         IN {[k |-> "update_initial_state", id |-> 1, state |-> adv, pred |-> pr] :
+                pr \in {[k |-> "none"], PTraj(1, TrajOf(kind, t1, 1, 2, <<4, -1>>, 2, M1)), PSet(0, OccsOf(1, t1, 0, 2, <<4, -1>>, 2, M2))}}
+            \cup {[k |-> "set_initial_state", id |-> 1, state |-> St("initial", ob.t0, 4, -1, 2)]}
+            \cup (IF PredGap(ob) > 0 THEN {[k |-> "set_initial_state", id |-> 1, state |-> adv]} ELSE {})
+            \cup {[k |-> "set_prediction", id |-> 1, pred |-> pr] :
+                     pr \in {[k |-> "none"], PTraj(2, AltTraj(kind, ob.t0, 1)), AltSet(ob.t0)}}
+HistCases == UNION {{<<<<ob, Red(2)>>, mm>> : mm \in Moves(ob) \cup TrajMods(ob) \cup InitMods(ob)} : ob \in HTrajTargets}
+             \cup UNION {{<<<<ob, Red(2)>>, mm>> : mm \in Moves(ob) \cup OtherMods(ob) \cup InitMods(ob)} : ob \in HSetTargets \cup HOthers}
 
 (* ---- model -------------------------------------------------------------------------------------------- *)
 Dummy == Phantom(0, 0, [k |-> "none"])
@@ -259,7 +270,13 @@ LawModify ==
               /\ (md.k = "move" /\ Targets(a, md) =>                                          \* Occ(Move(o, m), t) = Move(Occ(o, t), m)
                      IF md.via = "prediction" /\ a.role = "dynamic" /\ t = a.t0 THEN Occ(b, t) = Occ(a, t)
                      ELSE Occ(b, t) = MoveRegion(md, Occ(a, t)))
-              /\ (md.k # "move" /\ Targets(a, md) =>
+              /\ (md.k \in {"update_initial_state", "set_initial_state"} /\ Targets(a, md) =>  \* the NEW initial state is the one placed
+                     /\ b.t0 = md.state.t /\ Source(b, b.t0).k = "Initial" /\ StateAt(b, b.t0) = md.state
+                     /\ Occ(b, b.t0) = Placed(a.shape, PoseOf(md.state))
+                     /\ PredGap(b) >= 0
+                     /\ (b.t0 > a.t0 => Occ(b, a.t0) = NoneV /\ StateAt(b, a.t0) = NoneV)        \* the old initial step left the horizon
+                     /\ (md.k = "update_initial_state" /\ md.pred.k = "none" => (Occ(b, t).k # "None" <=> t = b.t0)))
+              /\ (md.k \in {"set_trajectory", "set_shape", "update_prediction", "set_prediction"} /\ Targets(a, md) =>
                      /\ Occ(b, a.t0) = Occ(a, a.t0)                                           \* the initial occupancy is not the prediction's
                      /\ (md.k = "set_shape" => /\ Source(b, t) = Source(a, t)
                                                /\ (Source(a, t).k = "Traj" => Occ(b, t) = Placed(md.shape, PoseOf(SrcState(a, t)))))
